@@ -185,6 +185,28 @@ func execute(s *engine.Script, o *engine.Outcome) {
 	lastFrame := make([]*liveValue, nbuf) // most recent value parsed from each buffer
 	var live []*liveValue
 
+	// The reverse direction of the same aliasing: nothing the library does (parse,
+	// accessors, serialisers called by the observation) may write into a buffer
+	// the transport owns. mirror holds what the transport itself wrote.
+	mirror := make([][]byte, nbuf)
+	for i := range mirror {
+		mirror[i] = make([]byte, bufSize)
+	}
+	wroteInto := map[int]bool{}
+	checkBuffers := func(what string, ad string) {
+		for b := range pool {
+			if wroteInto[b] {
+				continue
+			}
+			for k := range pool[b] {
+				if pool[b][k] != mirror[b][k] {
+					wroteInto[b] = true
+					o.Violate("C08/library-wrote-into-the-callers-buffer/"+ad, "after %s byte %d of buffer %d changed from %02x to %02x although the transport did not touch it", what, k, b, mirror[b][k], pool[b][k])
+					break
+				}
+			}
+		}
+	}
 	check := func(what, class string) {
 		for _, lv := range live {
 			if lv.dead {
@@ -240,6 +262,7 @@ func execute(s *engine.Script, o *engine.Outcome) {
 				end += len(nx)
 				o.Fault("frame-followed-by-another")
 			}
+			copy(mirror[b], pool[b])
 			if off > 0 {
 				o.Fault("parse-at-nonzero-offset")
 			}
@@ -272,6 +295,7 @@ func execute(s *engine.Script, o *engine.Outcome) {
 			}
 			live = append(live, lv)
 			lastFrame[b] = lv
+			checkBuffers(fmt.Sprintf("op %d: parsing and observing a %s", i, ad.Name), ad.Name)
 			o.Probe("values_parsed")
 			o.FP.Step("recv", i, ad.Name, b, off, len(lv.base))
 		case "scribble":
@@ -293,6 +317,7 @@ func execute(s *engine.Script, o *engine.Outcome) {
 				continue
 			}
 			scribbleBytes(pool[b][a:e], mode, uint64(op.N[3]))
+			copy(mirror[b], pool[b])
 			o.Fault("scribble:" + class)
 			if lf != nil {
 				o.Tag("(entry point, field class overwritten)", lf.ad.Name+"/"+class)
@@ -322,6 +347,7 @@ func execute(s *engine.Script, o *engine.Outcome) {
 		}
 	}
 	check("the end of the history", "late-change")
+	checkBuffers("the whole history (observations of live values)", "any")
 	o.FP.Step("end", len(live))
 }
 
